@@ -212,13 +212,28 @@ fn gen_cells(rng: &mut Rng, tag: usize) -> Vec<String> {
 
 pub fn gen_rules_n(rng: &mut Rng, below: usize, maxlen: usize) -> Vec<Rule> {
     let n = rng.below(below);
-    gen_rules(rng, n, maxlen)
+    let mut rules = gen_rules(rng, n, maxlen);
+    if rng.chance(0.2) {
+        // a rule and a longer rule extending its pattern, in either order (the first registered one that matches
+        // applies; a row as long as the shorter pattern is matched by the shorter rule only)
+        let base = gen_rules(rng, 1, 2).remove(0).0;
+        let mut longer = base.clone();
+        longer.push(["*", "a", "一般"][rng.below(3)].to_string());
+        let pair = vec![(base, vec!["SHORT".to_string(), "$1".to_string()]), (longer, vec!["LONG".to_string(), "$2".to_string(), "$1".to_string()])];
+        let at = rng.below(rules.len() + 1);
+        if rng.chance(0.5) {
+            rules.splice(at..at, pair);
+        } else {
+            rules.splice(at..at, pair.into_iter().rev());
+        }
+    }
+    rules
 }
 
 pub fn gen_rules(rng: &mut Rng, n: usize, maxlen: usize) -> Vec<Rule> {
     // (U+3000 and U+00A0 are text, not separators: the columns of a rule are separated by ASCII blanks; they
     // never stand at the start or the end of a line here, where the reader trims the line)
-    let pats = ["*", "a", "b", "(a|b)", "名詞", "(名詞|動詞)", "一般", "*", "(a)", "(名詞)", "(b|a|c)", "(a|\u{3000})", "(\u{3000}|a)", "全\u{3000}角", "a", "b", "*", "名詞", "(a|b)"];
+    let pats = ["*", "a", "b", "(a|b)", "名詞", "(名詞|動詞)", "一般", "*", "(a)", "(名詞)", "(b|a|c)", "(a|\u{3000})", "(\u{3000}|a)", "全\u{3000}角", "a", "b", "*", "名詞", "(a|b)", "*a", "*名詞", "a*"];
     let outs = ["$1", "$2", "$3", "$4", "X", "a", "*", "$9", "$10", "$12", "$20", "$101", "全\u{3000}角", "y\u{a0}z", "$1", "$2", "X"];
     (0..n)
         .map(|_| {
@@ -940,6 +955,14 @@ pub fn train_bundled() -> Option<Model> {
 pub fn c15_case(ctx: &mut Ctx, rng: &mut Rng) {
     let bundled = ctx.index == 0;
     let mut ts = gen_trainset(rng);
+    if !bundled && rng.chance(0.12) {
+        // neighbouring seed rows whose feature strings share their first 256+ bytes
+        let long = "共".repeat(90 + rng.below(30));
+        let head = ts.seed[0].1[0].clone();
+        ts.seed.push(("あい".to_string(), vec![head.clone(), long.clone(), "a".to_string()]));
+        ts.seed.push(("あう".to_string(), vec![head, long, "b".to_string()]));
+        ctx.bucket("neighbouring_rows_sharing_a_long_feature_prefix");
+    }
     if !bundled && rng.chance(0.15) {
         // a seed surface with a line break inside (a quoted CSV cell); the corpus format cannot name it
         let cells = ts.seed[0].1.clone();
@@ -1484,7 +1507,7 @@ pub fn c17_case(ctx: &mut Ctx, rng: &mut Rng) {
                 })
                 .collect();
             let text = rules_text(&sections);
-            let vals = ["a", "b", "名詞", "動詞", "一般", "*", "c", "x", "\u{3000}", "全\u{3000}角", "a", "b", "名詞"];
+            let vals = ["a", "b", "名詞", "動詞", "一般", "*", "c", "x", "\u{3000}", "全\u{3000}角", "a", "b", "名詞", "*a", "a*"];
             let rlists: Vec<Vec<String>> = (0..40).map(|_| (0..if rng.chance(0.3) { 9 + rng.below(14) } else { rng.below(7) }).map(|k| if rng.chance(0.2) { format!("v{k}") } else { rng.pick(&vals).to_string() }).collect()).collect();
             if !c17_check(ctx, &text, sec, &rules, &rlists) {
                 return;
